@@ -22,7 +22,7 @@ RULE = ("configuration = TCP with 1-3 resolved addresses (mixed families) / UNIX
         "(including ones abandoned in the address loop or before a failing wrap/setsockopt); the first fault-free call "
         "after a failure opens a fresh socket and answers correctly; connect() happens under connect_timeout and every "
         "sendall/recv under timeout; with TLS no I/O on the raw socket; if socket()/wrap fails for some resolved "
-        "addresses and works for a later one the call succeeds using that address. Non-trivial: a fault during "
+        "addresses and works for a later one the call succeeds using that address. Object shutdown: Client / PooledClient / HashClient over three servers (pooled or not) / the ElastiCache client (pooled or not, with and without a reconfigure_nodes()) x traffic on 0, 1 or many keys x every documented way of shutting the object down (close, quit, disconnect_all), once and again after more traffic: afterwards no socket any part of the object opened is open. Non-trivial: a fault during "
         "connection establishment, or a failure followed by a successful reconnect, or more than one resolved address.")
 MANIFEST = {
     "category": "fault_enumeration",
@@ -209,7 +209,73 @@ def history_strategy(tier):
     return st.builds(mk, conf, kind, st.lists(call, min_size=1, max_size=6))
 
 
+# ---- shutting a whole client object down -------------------------------------------------------------------------
+
+SHUT_KINDS = {"client": ("close", "quit", "disconnect_all"), "pooled": ("close", "quit", "disconnect_all"),
+              "hash": ("close", "disconnect_all", "quit"), "hash-pooled": ("close", "disconnect_all", "quit"),
+              "aws": ("close", "disconnect_all", "quit"), "aws-pooled": ("close", "disconnect_all", "quit")}
+
+
+def shutdown_cases(tier, seed):
+    for kind, ways in SHUT_KINDS.items():
+        for way in ways:
+            for traffic in (0, 1, 12):
+                for again in (False, True):
+                    for reconf in ((False, True) if kind.startswith("aws") else (False,)):
+                        yield {"kind": kind, "way": way, "traffic": traffic, "again": again, "reconfigure": reconf}
+
+
+def check_shutdown(case):
+    """every socket any part of the object opened (connections to each server, pooled ones, the discovery connection of the
+    ElastiCache client) is closed once the object is shut down through any of the documented ways; the object reconnects
+    when used again and can be shut down again"""
+    from vlib.harness import Env, virtual_time
+    kind, way = case["kind"], case["way"]
+    if kind.startswith("aws"):
+        from props import c19
+        from pymemcache.client.ext.aws_ec_client import AWSElastiCacheHashClient
+        w = c19.World()
+        net, clock = w.net, w.clock
+        w.advertise(1, [0, 1, 2])
+        with virtual_time(clock):
+            c = AWSElastiCacheHashClient(c19.CFG, socket_module=net, use_pooling=kind.endswith("pooled"), default_noreply=False, timeout=1)
+    else:
+        env = Env(nservers=3 if kind.startswith("hash") else 1)
+        net, clock = env.net, env.clock
+        with virtual_time(clock):
+            c = env.client(kind, **({"servers": list(env.addrs)} if kind.startswith("hash") else {}), default_noreply=False)
+    if not hasattr(c, way):
+        return False, ["no-such-method"]
+    desc = "%s, %d call(s), then %s()%s%s" % (kind, case["traffic"], way, ", a reconfigure_nodes() before" if case.get("reconfigure") else "", ", then traffic and the shutdown once more" if case["again"] else "")
+    rounds = 2 if case["again"] else 1
+    opened = 0
+    with virtual_time(clock):
+        for rnd in range(rounds):
+            for i in range(case["traffic"]):
+                try:
+                    c.set("key-%d" % i, b"v")
+                    c.get("key-%d" % i)
+                except Exception as e:  # noqa: BLE001
+                    raise Violation(["shutdown", "traffic-raises", kind], "traffic raised %r in round %d: %s" % (e, rnd, desc))
+            if case.get("reconfigure"):
+                w.advertise(2 + rnd, [1, 2, 3])
+                c.reconfigure_nodes()
+                for i in range(case["traffic"]):
+                    c.get("key-%d" % i)
+            opened = max(opened, len(net.open_sockets()))
+            try:
+                getattr(c, way)()
+            except Exception as e:  # noqa: BLE001
+                raise Violation(["shutdown", "raises", kind, way], "%s() raised %r: %s" % (way, e, desc))
+            left = net.open_sockets()
+            if left:
+                raise Violation(["shutdown", "socket-left-open", kind, way], "after %s() (round %d) %d socket(s) are still open, to %r: %s"
+                                % (way, rnd, len(left), sorted({str(getattr(x, "addr", None)) for x in left}), desc))
+    return opened > 0, [kind, way, "sockets-open-before=%d" % min(opened, 3)]
+
+
 PARTS = [
+    Part("object-shutdown", "enum", check_shutdown, cases=shutdown_cases, exhaustive=True),
     Part("fault-position-sweep", "enum", check, cases=sweep_cases, exhaustive=True),
     Part("random-histories", "hyp", check, strategy=history_strategy,
          examples={"quick": 250, "thorough": 12000}, shards={"quick": 4, "thorough": 16}),
